@@ -82,6 +82,38 @@ Proof.
   - unfold erase_e at 2. cbn [ekey eval elink fst snd]. rewrite map_app, map_rev. reflexivity.
 Qed.
 
+(** structural induction over trees *)
+Section NODE_IND.
+Variable P : node -> Prop.
+Definition PL (l : link) : Prop := match l with LPtr c => P c | LHash _ c => P c | _ => True end.
+Hypothesis H : forall d s l0 (es : list entry), PL l0 -> Forall (fun e : entry => PL (elink _ _ e)) es -> P (Node d s l0 es).
+Fixpoint node_ind' (n : node) : P n :=
+  match n with
+  | Node d s l0 es =>
+    H d s l0 es
+      (match l0 return PL l0 with LPtr c => node_ind' c | LHash _ c => node_ind' c | LNil => I | LBad _ => I end)
+      ((fix go (es : list entry) : Forall (fun e : entry => PL (elink _ _ e)) es :=
+          match es with
+          | [] => Forall_nil _
+          | e :: r =>
+              Forall_cons e
+                (match e as e0 return PL (elink _ _ e0) with
+                 | (_, _, l) => match l return PL l with LPtr c => node_ind' c | LHash _ c => node_ind' c | LNil => I | LBad _ => I end
+                 end) (go r)
+          end) es)
+  end.
+End NODE_IND.
+
+Lemma to_list_n_erase : forall n, to_list_n _ _ (erase_n n) = to_list_n _ _ n.
+Proof.
+  induction n as [d s l0 es H0 Hes] using node_ind'. rewrite erase_n_eq, !to_list_n_eq. f_equal.
+  - destruct l0 as [|c|h c|h]; cbn [erase_l to_list PL] in *; try reflexivity; exact H0.
+  - rewrite !flat_map_concat_map, map_map. f_equal. apply map_ext_in. intros e He.
+    rewrite Forall_forall in Hes. specialize (Hes e He). destruct e as [[k v] l].
+    unfold erase_e. cbn [ekey eval elink fst snd] in *. f_equal.
+    destruct l as [|c|h c|h]; cbn [erase_l to_list PL] in *; try reflexivity; exact Hes.
+Qed.
+
 Section WITHCMP.
 Variable cmp : K -> K -> comparison.
 
